@@ -155,22 +155,21 @@ def split_pipelines():
 def _nested_gaps(shape):
     """some discontinuous node below the root has a discontinuous child whose token blocks lie in
     different blocks of that node"""
-    if isinstance(shape, int):
-        return False
-    for node in shape:                      # the root covers 1..n: one block
+    def rec(node):
         if isinstance(node, int):
-            continue
+            return False
         runs = tg.runs_of_set(tg.shape_leaves(node))
         if len(runs) > 1:
             for c in node:
                 if isinstance(c, int):
                     continue
                 cruns = tg.runs_of_set(tg.shape_leaves(c))
-                if len(set(i for r in cruns for i, b in enumerate(runs) if r[0] in b)) > 1:
+                if len(set(i for r in cruns for i, blk in enumerate(runs) if r[0] in blk)) > 1:
                     return True
-        if _nested_gaps((node,)):
-            return True
-    return False
+        return any(rec(c) for c in node)
+    if isinstance(shape, int):
+        return False
+    return any(rec(c) for c in shape)       # the root itself covers 1..n: one block
 
 
 def head_assignment_specs(max_n, nested_only_n):
